@@ -25,6 +25,7 @@ RULE = (
     "untouched. Aggregator: Constant with distinct weights (row-order sensitive, column-wise exact). Non-trivial = "
     "a leaf reachable both through and around a feature, or a detached branch, or a multi-output op, or a no-grad "
     "leaf. Distinct = distinct case description."
+    " Programs may contain a user-defined autograd.Function whose ctx (= its backward node) carries an attribute named `variable`."
 )
 ASSUMPTIONS = ["outputs/features are non-leaf tensors requiring grad (the helper's documented domain)"]
 LEVEL_TEXT = "Generated-input differential testing of the graph traversal against reachability computed on the IR. No proof."
